@@ -164,6 +164,9 @@ func browserSerialisable(o string) bool {
 	if pp.Scheme == "" || pp.Scheme[0] < 'a' || pp.Scheme[0] > 'z' || strings.Trim(pp.Scheme, "abcdefghijklmnopqrstuvwxyz0123456789+.-") != "" {
 		return false
 	}
+	if len(pp.Scheme) > 64 || len(strings.TrimSuffix(pp.Host, ".")) > 253 {
+		return false // beyond the documented limits (64-byte scheme, 253-byte host): not an origin the library claims to serve, even under `*`
+	}
 	if pp.Port != "" && strings.Trim(pp.Port, "0123456789") != "" {
 		return false
 	}
